@@ -100,7 +100,7 @@ func c08R10(c *Ctx) {
 					if v == nil || !c08IsTime(v.Type()) {
 						continue
 					}
-					terms, probs, _ := c.c08FoldCore([]c08Alt{{Val: v, At: in}}, c08FoldOpt{})
+					terms, probs, _ := c.c08FoldCore([]c08Alt{{Val: v, At: in}}, c08FoldOpt{Producers: true})
 					leaves := c08SplitMinTerms(c08TermExprs(terms), timeAdd, minNonZero)
 					var derived, ceilings []*Expr
 					for _, l := range leaves {
